@@ -67,8 +67,34 @@ var registry []*core.Rule
 
 func register(r *core.Rule) { registry = append(registry, r) }
 
+// extraProps: rules written for one property that also decide a necessary part of another (added after registration so
+// that the rule files keep the property they were written for).
+var extraProps = map[string][]string{
+	// C09 (linearizable Raft store): the per-server state is one copy shared by the five archetypes, under 2PL
+	"RAFT-WIRING": {"C09"}, "LS-2PL": {"C09"}, "LS-CAP1": {"C09"},
+	// C16: the shared counter rests on the 2PC resource, the CRDT systems on the CRDT value types
+	"TPC-ACCEPTOR": {"C16"}, "TPC-DECISION": {"C16"}, "TPC-VERSION": {"C16"}, "TPC-RELEASE": {"C16"}, "TPC-EXHAUST": {"C16"},
+	"TPC-POISON": {"C16"}, "TPC-RETRY": {"C16"}, "TPC-COMMITTED-ONLY": {"C16"},
+	"CRDT-DECISION": {"C16"}, "MERGE-COMPONENT": {"C16"}, "MERGE-MONO": {"C16"}, "OPERAND-TRAVERSED": {"C16"},
+	"WRITE-UNCOND": {"C16"}, "WRITE-INFLATES": {"C16"}, "MERGE-PURE": {"C16"},
+}
+
+var extraApplied bool
+
 // All returns every registered rule.
-func All() []*core.Rule { return registry }
+func All() []*core.Rule {
+	if !extraApplied {
+		extraApplied = true
+		for _, r := range registry {
+			for _, p := range extraProps[r.ID] {
+				if !r.HasProp(p) {
+					r.Props = append(r.Props, p)
+				}
+			}
+		}
+	}
+	return registry
+}
 
 // mustFunc resolves a package-level function or reports the anchor as lost.
 func mustFunc(c *core.Ctx, e *Env, pkg, name string) *an.Func {
